@@ -143,6 +143,17 @@ Proof. apply cache_sound. pose proof cache_thr_ok. lia. Qed.
 
 End C.
 
+(* the test as the source writes it: the places are the expressions regenerated from check_cached_transition_set,
+   and the place the model's completer looks at is the expression regenerated from build_new_set *)
+Lemma source_places_are_the_models : forall (k k' d : nat), d <= k + 1 -> d <= k' + 1 ->
+  Z.to_nat (cache_index_now (Z.of_nat k') (Z.of_nat k) (Z.of_nat d)) = k' + 1 - d /\
+  Z.to_nat (cache_index_then (Z.of_nat k') (Z.of_nat k) (Z.of_nat d)) = k + 1 - d /\
+  Z.to_nat (completion_place (Z.of_nat k) (Z.of_nat d)) = k + 1 - d.
+Proof.
+  intros k k' d H1 H2. destruct (cache_indexes_ok (Z.of_nat k') (Z.of_nat k) (Z.of_nat d)) as (A & B & _).
+  destruct (cache_indexes_ok (Z.of_nat k) 0 (Z.of_nat d)) as (_ & _ & C). rewrite A, B, C. repeat split; lia.
+Qed.
+
 (* L : L x | x  (situations 0: L -> . L x, 1: L -> L . x, 2: L -> L x ., 3: L -> . x, 4: L -> x .; symbols x = 0, L = 1):
    the set after the second x is built from the sets at places 1 and 0 *)
 Example cache_ex :
